@@ -3,7 +3,7 @@ proof: Props/C01.v (engine skeleton, any algorithm, exact key);  K: dirty-flag c
 search: histories on the implementation, every layout compared with a freshly built tree, in real and exact-key mode."""
 from ..common import *
 from ..stages import *
-from ..engine_k import engine_correspondence
+from ..engine_k import engine_correspondence, engine_event_correspondence
 
 FINDINGS = {
     'scribble': 'computesize-scribble: a block container stores its in-flow children\'s layouts while answering a ComputeSize query '
@@ -29,7 +29,7 @@ def parse_fails(out):
 
 def run(rep, tier, seed, replay=None):
     res, changed = proof_stage(rep, 'C01', extra_trusted=[
-        'engine skeleton Model/Engine.v is hand-written (tied by the dirty-flag correspondence and trace validation)',
+        'engine skeleton Model/Engine.v is hand-written (tied by the dirty-flag correspondence, the event-level correspondence with the real algorithms replayed, and trace validation)',
         'interface hypotheses WF, H1 (output-level theorems) and H3, HQ (layout-level theorem) on the real algorithms: validated on every traced pass, not proved; NS is falsified by the block algorithm (known finding, counted per run)',
         'exact-key memo = cfg(taffy_verif) hook; the real lossy key is a known finding',
         'theorems cover the root LayoutOutput and cache validity for every algorithm; the per-node stored layouts only for algorithms '
@@ -41,6 +41,7 @@ def run(rep, tier, seed, replay=None):
         return
     nk = 400 if tier == 'quick' else 4000
     engine_correspondence(rep, binp, seed, nk)
+    engine_event_correspondence(rep, binp, seed, 600 if tier == 'quick' else 6000)
     # ---- search
     n = 600 if tier == 'quick' and not rep.broken else 6000
     if replay:
